@@ -113,16 +113,28 @@ def fam_forest(n, with_aux=True, pairs=True, ctxs=ALLCTX, aux_kinds=("repeat1", 
                 for g in singles:
                     yield ("forest%d/%s/under%d>%d/%s" % (n, parents, p, kids[-1], g),
                            forest_prog(names, parents, [g], ctxs, under=(p, kids[-1])), dict(parents=parents))
+        # frames that are a NON-primary child: only reachable as `first` or by an explicit transition
+        nonprimary = [i for i in range(n) if parents[i] is not None and
+                      any(parents[j] == parents[i] for j in range(i))]
+        for f in nonprimary:
+            for g in singles:
+                yield ("forest%d/%s/first%d/%s" % (n, parents, f, g),
+                       forest_prog(names, parents, [g], ctxs, first=names[f]), dict(parents=parents))
         if with_aux:
             for kind in aux_kinds:
                 ax = aux_framer("x", kind)
                 for m in range(n):
                     for pos in ("before", "after"):
-                        for g in singles + [(0, "me", None)][:0]:
+                        for g in singles:
                             yield ("forest%d/%s/auxif%d-%s-%s/%s" % (n, parents, m, kind, pos, g),
                                    forest_prog(names, parents, [(g[0], g[1], "e1")], ctxs,
                                                auxif=(m, "x", "e0", pos), extra_framers=[ax]),
                                    dict(parents=parents))
+                            for f in nonprimary:     # start in a non-primary branch under / beside the aux's main frame
+                                yield ("forest%d/%s/auxif%d-%s-%s/first%d/%s" % (n, parents, m, kind, pos, f, g),
+                                       forest_prog(names, parents, [(g[0], g[1], "e1")], ctxs, first=names[f],
+                                                   auxif=(m, "x", "e0", pos), extra_framers=[ax]),
+                                       dict(parents=parents))
 
 
 # ------------------------------------------------------------------------------- C08 guards
